@@ -580,7 +580,7 @@ fn family_describe(family: &str, ctx: &Ctx, idx: u64) -> J {
     }
     "towers" => {
       let (text, scope, what) = towers_case(&ctx.tier, idx);
-      json!({"family":family,"text":text.chars().take(200).collect::<String>(),"tower":what,"entry_point":"expression","scope":scope})
+      json!({"family":family,"text":text,"tower":what,"entry_point":"expression","scope":scope})
     }
     "bifs" => {
       let (text, args) = bif_case(&ctx.tier, &ctx.bifs, idx);
@@ -740,4 +740,34 @@ pub fn run() {
   run.assume("a case that neither panics, dies nor stalls returned a result or an error; values are not judged here");
   run.assume("stall limit 20-30 s per case; address space of a worker limited to 4 GiB");
   run.finish();
+}
+
+/// replay of one recorded case in this process: a panic is caught and reported, a crash or hang is the replay's own
+pub fn replay_case(case: &J) -> String {
+  let c = case.get("case").unwrap_or(case);
+  let text = c.get("text").and_then(|t| t.as_str()).unwrap_or("").to_string();
+  let entry = c.get("entry_point").and_then(|e| e.as_str()).and_then(|e| ENTRY_POINTS.iter().position(|x| *x == e)).unwrap_or(0) as u64;
+  let family = c.get("family").and_then(|f| f.as_str()).unwrap_or("");
+  let scope = if family == "bifs" {
+    let mut results = std::fs::OpenOptions::new().write(true).open("/dev/null").unwrap();
+    let vals = build_extremes(&mut results);
+    let mut fc = FeelContext::default();
+    for (i, v) in vals.into_iter().enumerate() {
+      fc.set_entry(&Name::from(format!("v{}", i)), v);
+    }
+    Scope::from(fc)
+  } else {
+    scope_of_kind(c.get("scope").and_then(|s| s.as_u64()).unwrap_or(0))
+  };
+  isolate::silence_panics();
+  let r = std::panic::catch_unwind(std::panic::AssertUnwindSafe(|| {
+    parse_and_evaluate(entry, &scope, &text);
+    if family != "tokens" {
+      parse_and_evaluate(3, &scope, &text);
+    }
+  }));
+  match r {
+    Ok(()) => format!("PASS `{}` is parsed / evaluated without incident", text.chars().take(120).collect::<String>()),
+    Err(_) => format!("FAIL `{}` panics", text.chars().take(120).collect::<String>()),
+  }
 }
